@@ -467,7 +467,7 @@ Lemma mstep_coherent d a o :
   Coherent d a -> op_ok o ->
   Coherent (fst (mstep d o)) (fst (astep false a o)) /\ snd (mstep d o) = snd (astep false a o).
 Proof.
-  intros HC Hok. destruct o as [kt v|k|k|kt|q]; simpl.
+  intros HC Hok. destruct o as [kt v|k|k|kt|q|v|]; simpl.
   - destruct (setitem_coherent d a kt v HC Hok) as [d' [Hd' HC']]. rewrite Hd'. simpl. split; [exact HC'|reflexivity].
   - unfold aspec_del. destruct (aval a k) as [v|] eqn:Hk.
     + destruct (delitem_coherent d a k v HC Hk) as [d' [Hd' HC']]. rewrite Hd'. simpl. split; [exact HC'|reflexivity].
@@ -475,6 +475,8 @@ Proof.
   - split; [exact HC|reflexivity].
   - split; [exact HC|reflexivity].
   - split; [exact HC|apply qraises_coherent; exact HC].
+  - split; [exact HC|reflexivity].
+  - split; [exact HC|reflexivity].
 Qed.
 
 Lemma mkd_refines_gen ks vs ops : forall d a,
